@@ -311,6 +311,7 @@ Proof.
   assert (Haa : is_auto_accept s to [from] = is_accept (get_auto s to from))
     by (unfold is_auto_accept; cbn [forallb]; apply andb_true_r).
   rewrite Haa.
+  destruct (marker_ok h s from c); cbn [negb]; [|discriminate].
   destruct (Pos.eqb from to || Pos.eqb from h) eqn:E1.
   - intros [= <-]. split; [exact Hw|]. split; [split; reflexivity|]. left.
     split; [|split; reflexivity].
@@ -505,7 +506,7 @@ Proof.
     { intros r2 E. rewrite E. unfold mk_key. rewrite Hsort1, <- Hk0, <- Hto. destruct k0; reflexivity. }
     destruct (fully_accepted r1) eqn:Efa.
     + (* paid out *)
-      destruct (can_pay (s_bal si) h (q_coins r1)); [|rewrite fold_accept_none; discriminate].
+      destruct (marker_ok h si h (q_coins r1) && can_pay (s_bal si) h (q_coins r1)); [|rewrite fold_accept_none; discriminate].
       destruct (set_record _ to r1) as [s1|] eqn:Esr; [|rewrite fold_accept_none; discriminate].
       apply set_record_spec in Esr. rewrite Efa in Esr. rewrite (Hkey r1 eq_refl) in Esr.
       cbn [s_bal s_recs with_bal] in Esr. destruct Esr as (Hb1 & Hset1 & Hr1).
